@@ -137,6 +137,20 @@ func (d *simDB) get(p pair) (entry, bool) {
 	return e, ok
 }
 
+// snapshot returns what the database currently holds.
+func (d *simDB) snapshot() map[pair]entry {
+	d.mu.Lock()
+	defer d.mu.Unlock()
+	out := map[pair]entry{}
+	for p, e := range d.durable {
+		out[p] = e
+	}
+	for p, e := range d.volatile {
+		out[p] = e
+	}
+	return out
+}
+
 func (d *simDB) FetchKeys(ctx context.Context, reqs map[pair]spec.Timestamp) (map[pair]entry, error) {
 	task := sim.TaskName(ctx)
 	rec := recOf(ctx)
@@ -248,6 +262,9 @@ type simClient struct {
 	// what was handed out, by (task, call, what)
 	handed map[string][]*respRec
 	errs   map[string]error
+	// servers whose own key response was handed out, in order (C06: which
+	// servers a verification call really re-fetched)
+	answered []spec.ServerName
 }
 
 func (c *simClient) note(key string, rr ...*respRec) {
@@ -382,6 +399,9 @@ func (c *simClient) GetServerKeys(ctx context.Context, name spec.ServerName) (gm
 	}
 	c.w.r.Logf("  %s[%s] -> %s response of %s", label, task, orHonest(rr.kind), rr.server)
 	c.note(task+"|"+label, rr)
+	c.mu.Lock()
+	c.answered = append(c.answered, name)
+	c.mu.Unlock()
 	return rr.keys, nil
 }
 
